@@ -62,13 +62,20 @@ def lib_polylines(path):
     return out
 
 
-def compare_geometry(path, pieces, size, normM=1.0):
+def compare_geometry(path, pieces, size, normM=1.0, M=None):
     """None or (kind, detail)"""
+    # rounding of  M*p + t  is relative to the magnitude of the terms, not to the extent of the shape (a zero-extent
+    # shape - e.g. a <line> whose defaulted end points coincide - far from the origin still moves by ulps)
+    ref_pts = [np.asarray(r, dtype=complex) for r in RF.pieces_polyline(pieces)]
+    mag = max([float(np.abs(r).max()) for r in ref_pts if len(r)] or [0.0])
+    if M is not None:
+        mag += abs(complex(M[0, 2], M[1, 2]))
+    rnd = 512 * EPS * mag * max(1.0, normM)
     if pieces and all(p[0] == 'bez' for p in pieces):
         # a path element made of L/Q/C commands: segment by segment, control point by control point
         if len(path) != len(pieces):
             return ('segments', '%d segments, reference %d' % (len(path), len(pieces)))
-        ptol = 64 * EPS * normM * size + 1e-9 * size
+        ptol = 64 * EPS * normM * size + 1e-9 * size + rnd
         for k, (s, p) in enumerate(zip(path, pieces)):
             want = {2: 'Line', 3: 'QuadraticBezier', 4: 'CubicBezier'}[len(p[1])]
             if type(s).__name__ != want:
@@ -83,7 +90,7 @@ def compare_geometry(path, pieces, size, normM=1.0):
             return None
         return ('missing', 'library returned an empty path')
     lib = lib_polylines(path)
-    tol = 1e-6 * size
+    tol = 1e-6 * size + rnd
     d1 = RF.directed(lib, ref)
     if d1 > tol:
         return ('outside-shape', 'a point of the returned path is %.3g away from the element\'s geometry (tol %.3g)' % (d1, tol))
@@ -123,7 +130,7 @@ def compare_geometry(path, pieces, size, normM=1.0):
                     out.append(q)
             return out
         gw, gg = norm(want), norm(got)
-        ptol = 64 * EPS * normM * size + 1e-9 * size
+        ptol = 64 * EPS * normM * size + 1e-9 * size + rnd
         if len(gw) != len(gg) or any(len(a) != len(b) for a, b in zip(gw, gg)):
             return ('vertices', 'vertex sequence differs: %s vs reference %s' % ([len(x) for x in gg], [len(x) for x in gw]))
         for a, b in zip(gw, gg):
@@ -198,7 +205,7 @@ def judge_flat(ctx, reader, results_by_el, root, chain_of):
         seen += 1
         size = ref_size(pieces)
         normM = float(np.linalg.norm(M[:2, :2], 2)) if M is not None else 1.0
-        res = compare_geometry(path, pieces, size, normM)
+        res = compare_geometry(path, pieces, size, normM, M)
         if res is not None:
             ctx.violation('%s/%s/%s%s' % (reader, res[0], cls, fkey),
                           '%s: path of a %s element differs from the SVG reference: %s' % (reader, cls, res[1]),
@@ -292,7 +299,7 @@ def post_from_group(call):
             ctx.violation('paths_from_group/foreign-element', 'an element outside the group was returned', {'id': el.get('id')})
             return True
         if want_in:
-            res = compare_geometry(got[el], pieces, ref_size(pieces), float(np.linalg.norm(M[:2, :2], 2)))
+            res = compare_geometry(got[el], pieces, ref_size(pieces), float(np.linalg.norm(M[:2, :2], 2)), M)
             if res is not None:
                 feats = tf_features(chain(el))
                 ctx.violation('paths_from_group/%s/%s%s' % (res[0], elem_class(el), ('/' + '+'.join(feats)) if feats else ''),
@@ -472,7 +479,7 @@ def post_sax(call):
             return True
         if isinstance(pieces, RF.Unsupported):
             continue
-        res = compare_geometry(p, pieces, ref_size(pieces), float(np.linalg.norm(M[:2, :2], 2)))
+        res = compare_geometry(p, pieces, ref_size(pieces), float(np.linalg.norm(M[:2, :2], 2)), M)
         if res is not None:
             nontrivial = [e.get('transform') for e in chain(el) if e.get('transform')]
             depth = len(nontrivial)
